@@ -11,13 +11,13 @@
 
 use crate::util::*;
 use metrics::{
-    counter, describe_counter, describe_gauge, describe_histogram, gauge, histogram, Counter, Gauge, Histogram, Key,
-    KeyName, Label, Level, LocalRecorderGuard, Metadata, Recorder, SharedString, Unit,
+    counter, describe_counter, describe_gauge, describe_histogram, gauge, histogram, Counter, CounterFn, Gauge, GaugeFn,
+    Histogram, HistogramFn, Key, KeyName, Label, Level, LocalRecorderGuard, Metadata, Recorder, SharedString, Unit,
 };
 use std::cell::RefCell;
 use std::collections::BTreeMap;
 use std::panic::{catch_unwind, resume_unwind, AssertUnwindSafe};
-use std::sync::atomic::{AtomicBool, AtomicU32, Ordering};
+use std::sync::atomic::{AtomicBool, AtomicU32, AtomicU64, Ordering};
 use std::sync::{Arc, Barrier, Once, OnceLock};
 
 // ---------------------------------------------------------------------------------------------
@@ -58,6 +58,82 @@ struct Received {
     owner: Option<usize>,
     in_scope: bool,
     row: Row,
+    /// serial of the metric handle this `register_*` call returned (`None`: a `describe_*` call)
+    handle: Option<u64>,
+}
+
+/// every call of a `Recorder` method on any double, process-wide (cases run one after the other): compared per case
+/// with the number of deliveries the per-thread oracles looked at, so a delivery made where no oracle looks (thread
+/// exit, TLS teardown, a thread the case did not start) is still counted
+static DELIVERIES: AtomicU64 = AtomicU64::new(0);
+
+static HANDLE_SERIAL: AtomicU64 = AtomicU64::new(1);
+
+thread_local! {
+    /// serials of the handles through which THIS thread updated a metric since it last cleared the list
+    static HANDLE_OPS: RefCell<Vec<u64>> = RefCell::new(vec![]);
+}
+
+/// the metric handle a double returns from `register_*`: every update made through it is noted with its serial, so
+/// "the handle the macro returns is the one the receiving recorder made" is observable
+struct Handle {
+    serial: u64,
+}
+
+impl Handle {
+    fn note(&self) {
+        HANDLE_OPS.with(|v| v.borrow_mut().push(self.serial));
+    }
+}
+
+impl CounterFn for Handle {
+    fn increment(&self, _: u64) {
+        self.note()
+    }
+    fn absolute(&self, _: u64) {
+        self.note()
+    }
+}
+
+impl GaugeFn for Handle {
+    fn increment(&self, _: f64) {
+        self.note()
+    }
+    fn decrement(&self, _: f64) {
+        self.note()
+    }
+    fn set(&self, _: f64) {
+        self.note()
+    }
+}
+
+impl HistogramFn for Handle {
+    fn record(&self, _: f64) {
+        self.note()
+    }
+}
+
+/// what every register call site of the form table does with the handle the macro returned: one update through it
+trait Touch {
+    fn touch(self);
+}
+impl Touch for Counter {
+    fn touch(self) {
+        self.increment(1)
+    }
+}
+impl Touch for Gauge {
+    fn touch(self) {
+        self.set(1.0)
+    }
+}
+impl Touch for Histogram {
+    fn touch(self) {
+        self.record(1.0)
+    }
+}
+fn touch<H: Touch>(h: H) {
+    h.touch()
 }
 
 thread_local! {
@@ -150,8 +226,9 @@ impl Double {
         };
         Arena { view, flag, wrap }
     }
-    fn got(&self, row: Row) {
-        let r = Received { id: self.id, owner: self.owner, in_scope: self.in_scope.load(Ordering::SeqCst), row };
+    fn got(&self, row: Row, handle: Option<u64>) {
+        let r = Received { id: self.id, owner: self.owner, in_scope: self.in_scope.load(Ordering::SeqCst), row, handle };
+        DELIVERIES.fetch_add(1, Ordering::SeqCst);
         RECEIVED.with(|v| v.borrow_mut().push(r));
         // the script of this callback, if any, runs HERE: inside the `Recorder` method, inside `with_recorder`
         let cb = CALLBACK.with(|c| c.borrow_mut().take());
@@ -172,9 +249,10 @@ impl Double {
             module_path: None,
             unit: unit.map(|u| u.as_str().to_string()),
             desc: Some(d.to_string()),
-        });
+        }, None);
     }
-    fn reg(&self, kind: char, key: &Key, m: &Metadata<'_>) {
+    fn reg(&self, kind: char, key: &Key, m: &Metadata<'_>) -> Arc<Handle> {
+        let serial = HANDLE_SERIAL.fetch_add(1, Ordering::SeqCst);
         self.got(Row {
             describe: false,
             kind,
@@ -185,7 +263,8 @@ impl Double {
             module_path: m.module_path().map(|s| s.to_string()),
             unit: None,
             desc: None,
-        });
+        }, Some(serial));
+        Arc::new(Handle { serial })
     }
 }
 
@@ -200,16 +279,13 @@ impl Recorder for Double {
         self.desc('h', k, u, d)
     }
     fn register_counter(&self, k: &Key, m: &Metadata<'_>) -> Counter {
-        self.reg('c', k, m);
-        Counter::noop()
+        Counter::from_arc(self.reg('c', k, m))
     }
     fn register_gauge(&self, k: &Key, m: &Metadata<'_>) -> Gauge {
-        self.reg('g', k, m);
-        Gauge::noop()
+        Gauge::from_arc(self.reg('g', k, m))
     }
     fn register_histogram(&self, k: &Key, m: &Metadata<'_>) -> Histogram {
-        self.reg('h', k, m);
-        Histogram::noop()
+        Histogram::from_arc(self.reg('h', k, m))
     }
 }
 
@@ -229,43 +305,43 @@ const CV: &str = "cv";
 type FormFn = fn();
 
 static OLD_FORMS: &[FormFn] = &[
-    /* 0 */ || drop(counter!("c_lit")),
-    /* 1 */ || drop(counter!(format!("c_computed_{}", seven()))),
-    /* 2 */ || drop(counter!("c_lit", "uvw" => "xyz")),
-    /* 3 */ || drop(counter!(format!("c_computed_{}", seven()), "uvw" => "xyz", "a" => "b")),
-    /* 4 */ || drop(counter!("c_lit", "dyn" => format!("{}!", dynamic_val()))),
+    /* 0 */ || touch(counter!("c_lit")),
+    /* 1 */ || touch(counter!(format!("c_computed_{}", seven()))),
+    /* 2 */ || touch(counter!("c_lit", "uvw" => "xyz")),
+    /* 3 */ || touch(counter!(format!("c_computed_{}", seven()), "uvw" => "xyz", "a" => "b")),
+    /* 4 */ || touch(counter!("c_lit", "dyn" => format!("{}!", dynamic_val()))),
     /* 5 */
     || {
         let labels = [("uvw", format!("{}!", dynamic_val())), ("k2", "v2".to_string())];
-        drop(counter!(format!("c_computed_{}", seven()), &labels))
+        touch(counter!(format!("c_computed_{}", seven()), &labels))
     },
-    /* 6 */ || drop(counter!(target: "tgt_a", "c_lit")),
-    /* 7 */ || drop(counter!(level: Level::DEBUG, "c_lit")),
-    /* 8 */ || drop(counter!(target: "tgt_b", level: Level::WARN, "c_lit", "uvw" => "xyz")),
-    /* 9 */ || drop(counter!(C_KEY, CK => CV)),
-    /* 10 */ || drop(gauge!("g_lit")),
-    /* 11 */ || drop(gauge!(format!("g_computed_{}", seven()), "a" => "1", "b" => "2")),
+    /* 6 */ || touch(counter!(target: "tgt_a", "c_lit")),
+    /* 7 */ || touch(counter!(level: Level::DEBUG, "c_lit")),
+    /* 8 */ || touch(counter!(target: "tgt_b", level: Level::WARN, "c_lit", "uvw" => "xyz")),
+    /* 9 */ || touch(counter!(C_KEY, CK => CV)),
+    /* 10 */ || touch(gauge!("g_lit")),
+    /* 11 */ || touch(gauge!(format!("g_computed_{}", seven()), "a" => "1", "b" => "2")),
     /* 12 */
     || {
         let labels = vec![("uvw", format!("{}!", dynamic_val())), ("k2", "v2".to_string())];
-        drop(gauge!(target: "tgt_g", "g_lit", &labels))
+        touch(gauge!(target: "tgt_g", "g_lit", &labels))
     },
-    /* 13 */ || drop(gauge!(level: Level::TRACE, format!("g_computed_{}", seven()))),
+    /* 13 */ || touch(gauge!(level: Level::TRACE, format!("g_computed_{}", seven()))),
     /* 14 */
     || {
-        drop(
+        touch(
             gauge!(target: "tgt_g", level: Level::ERROR, format!("g_computed_{}", seven()), "dyn" => format!("{}!", dynamic_val()), "lit" => "v"),
         )
     },
-    /* 15 */ || drop(histogram!("h_lit")),
-    /* 16 */ || drop(histogram!("h_lit", "dyn" => format!("{}!", dynamic_val()))),
+    /* 15 */ || touch(histogram!("h_lit")),
+    /* 16 */ || touch(histogram!("h_lit", "dyn" => format!("{}!", dynamic_val()))),
     /* 17 */
     || {
         let labels = [("uvw", format!("{}!", dynamic_val())), ("k2", "v2".to_string())];
-        drop(histogram!(target: "tgt_h", level: Level::ERROR, format!("h_computed_{}", seven()), &labels))
+        touch(histogram!(target: "tgt_h", level: Level::ERROR, format!("h_computed_{}", seven()), &labels))
     },
-    /* 18 */ || drop(histogram!(level: Level::WARN, "h_lit", "uvw" => "xyz")),
-    /* 19 */ || drop(histogram!(target: "tgt_h", format!("h_computed_{}", seven()))),
+    /* 18 */ || touch(histogram!(level: Level::WARN, "h_lit", "uvw" => "xyz")),
+    /* 19 */ || touch(histogram!(target: "tgt_h", format!("h_computed_{}", seven()))),
     /* 20 */ || describe_counter!("c_lit", "a counter"),
     /* 21 */ || describe_counter!("c_lit", Unit::Nanoseconds, "a counter"),
     /* 22 */ || describe_counter!(format!("c_computed_{}", seven()), Unit::Bytes, format!("computed desc {}", seven())),
@@ -273,7 +349,7 @@ static OLD_FORMS: &[FormFn] = &[
     /* 24 */ || describe_gauge!(format!("g_computed_{}", seven()), Unit::Percent, "a gauge"),
     /* 25 */ || describe_histogram!(format!("h_computed_{}", seven()), format!("computed desc {}", seven())),
     /* 26 */ || describe_histogram!("h_lit", Unit::Seconds, "a histogram"),
-    /* 27 */ || drop(counter!("c_lit", "uvw" => "xyz",)),
+    /* 27 */ || touch(counter!("c_lit", "uvw" => "xyz",)),
     /* 28 */ || describe_counter!("c_lit", Unit::CountPerSecond, "a counter",),
 ];
 
@@ -326,32 +402,32 @@ const L_COLL: &[(&str, &str)] = &[("uvw", "xyz!"), ("k2", "v2")];
 macro_rules! reg8 {
     ($v:ident, $mac:ident, $kind:literal, $lit:tt, $comp:tt, $tg:expr, $lv:expr, [$($pre:tt)*]) => {{
         let cname = concat!($comp, "7");
-        $v.push(((|| drop($mac!($($pre)* $lit))) as FormFn, reg_row($kind, $lit, L_NONE, $tg, $lv)));
-        $v.push((|| drop($mac!($($pre)* format!(concat!($comp, "{}"), seven()))), reg_row($kind, cname, L_NONE, $tg, $lv)));
-        $v.push((|| drop($mac!($($pre)* $lit, "uvw" => "xyz", "a" => "b")), reg_row($kind, $lit, L_LIT, $tg, $lv)));
+        $v.push(((|| touch($mac!($($pre)* $lit))) as FormFn, reg_row($kind, $lit, L_NONE, $tg, $lv)));
+        $v.push((|| touch($mac!($($pre)* format!(concat!($comp, "{}"), seven()))), reg_row($kind, cname, L_NONE, $tg, $lv)));
+        $v.push((|| touch($mac!($($pre)* $lit, "uvw" => "xyz", "a" => "b")), reg_row($kind, $lit, L_LIT, $tg, $lv)));
         $v.push((
-            || drop($mac!($($pre)* format!(concat!($comp, "{}"), seven()), "uvw" => "xyz", "a" => "b")),
+            || touch($mac!($($pre)* format!(concat!($comp, "{}"), seven()), "uvw" => "xyz", "a" => "b")),
             reg_row($kind, cname, L_LIT, $tg, $lv),
         ));
         $v.push((
-            || drop($mac!($($pre)* $lit, "dyn" => format!("{}!", dynamic_val()), CK => CV)),
+            || touch($mac!($($pre)* $lit, "dyn" => format!("{}!", dynamic_val()), CK => CV)),
             reg_row($kind, $lit, L_EXPR, $tg, $lv),
         ));
         $v.push((
-            || drop($mac!($($pre)* format!(concat!($comp, "{}"), seven()), "dyn" => format!("{}!", dynamic_val()), CK => CV)),
+            || touch($mac!($($pre)* format!(concat!($comp, "{}"), seven()), "dyn" => format!("{}!", dynamic_val()), CK => CV)),
             reg_row($kind, cname, L_EXPR, $tg, $lv),
         ));
         $v.push((
             || {
                 let labels = [("uvw", format!("{}!", dynamic_val())), ("k2", "v2".to_string())];
-                drop($mac!($($pre)* $lit, &labels))
+                touch($mac!($($pre)* $lit, &labels))
             },
             reg_row($kind, $lit, L_COLL, $tg, $lv),
         ));
         $v.push((
             || {
                 let labels = vec![("uvw", format!("{}!", dynamic_val())), ("k2", "v2".to_string())];
-                drop($mac!($($pre)* format!(concat!($comp, "{}"), seven()), &labels))
+                touch($mac!($($pre)* format!(concat!($comp, "{}"), seven()), &labels))
             },
             reg_row($kind, cname, L_COLL, $tg, $lv),
         ));
@@ -422,7 +498,7 @@ fn forms() -> &'static Vec<(FormFn, Row)> {
             || {
                 let key = Key::from_parts("direct_c", vec![Label::new("dk", "dv")]);
                 let md = Metadata::new("tgt_d", Level::ERROR, Some(module_path!()));
-                drop(metrics::with_recorder(|r| r.register_counter(&key, &md)))
+                touch(metrics::with_recorder(|r| r.register_counter(&key, &md)))
             },
             reg_row('c', "direct_c", &[("dk", "dv")], "tgt_d", "error"),
         ));
@@ -430,7 +506,7 @@ fn forms() -> &'static Vec<(FormFn, Row)> {
             || {
                 let key = Key::from_parts(format!("direct_g{}", seven()), vec![Label::new("dk", "dv"), Label::new("k2", "v2")]);
                 let md = Metadata::new("tgt_d", Level::TRACE, Some(module_path!()));
-                drop(metrics::with_recorder(|r| r.register_gauge(&key, &md)))
+                touch(metrics::with_recorder(|r| r.register_gauge(&key, &md)))
             },
             reg_row('g', "direct_g7", &[("dk", "dv"), ("k2", "v2")], "tgt_d", "trace"),
         ));
@@ -438,7 +514,7 @@ fn forms() -> &'static Vec<(FormFn, Row)> {
             || {
                 let key = Key::from_name("direct_h");
                 let md = Metadata::new(module_path!(), Level::WARN, Some(module_path!()));
-                drop(metrics::with_recorder(|r| r.register_histogram(&key, &md)))
+                touch(metrics::with_recorder(|r| r.register_histogram(&key, &md)))
             },
             reg_row('h', "direct_h", &[], MP, "warn"),
         ));
@@ -577,6 +653,11 @@ enum Stmt {
     Panic,
     Sync,
     SetGlobal(u32),
+    /// `let _d = EmitOnDrop(form);` — a local of the enclosing body whose destructor makes the macro call ("record on
+    /// drop" guards): the emission happens when the body is left, by return or WHILE A PANIC UNWINDS it
+    /// (`std::thread::panicking()` is true then), after every later local of the body, before the recorder guard of
+    /// the enclosing `with_local_recorder` frame is dropped
+    Defer(usize),
 }
 
 struct VerifPanic;
@@ -605,9 +686,37 @@ struct Ctx {
     barrier: Option<Arc<Barrier>>,
     max_depth: usize,
     depth: usize,
+    /// deliveries this thread's oracles have looked at (compared with the process-wide count at the end of the case)
+    seen: u64,
 }
 
 impl Ctx {
+    /// nothing but a macro call may reach a recorder: after an `install`/`drop`/`forget`/scope entry/scope exit/
+    /// `set_global_recorder` the thread's delivery list must be as long as it was when the enclosing body started
+    fn quiet(&mut self, base: usize, during: &str) {
+        let extra: Vec<Received> = RECEIVED.with(|v| {
+            let mut v = v.borrow_mut();
+            if v.len() > base {
+                v.split_off(base)
+            } else {
+                vec![]
+            }
+        });
+        for r in extra {
+            self.seen += 1;
+            self.fails.push((
+                "a recorder method was called outside any macro call".into(),
+                format!(
+                    "recorder {} (in scope: {}) received {:?} during `{}`; thread {} after {} ops",
+                    r.id, r.in_scope, r.row, during, self.tid, self.log.len()
+                ),
+            ));
+        }
+    }
+    fn emit_deferred(&mut self, f: usize) {
+        self.counts.push(if std::thread::panicking() { "emit.from_drop.while_unwinding" } else { "emit.from_drop.on_return" }.into());
+        self.emit(f, None);
+    }
     fn double(&mut self, r: u32) -> Arena {
         let tid = self.tid;
         let a = *self.doubles.entry(r).or_insert_with(|| Double::new(r, Some(tid), WRAPS[(r as usize) % WRAPS.len()]));
@@ -633,6 +742,7 @@ impl Ctx {
     fn emit(&mut self, f: usize, script: Option<&[Stmt]>) {
         // deliveries of an enclosing emission (we may be running inside its recorder callback) are set aside
         let outer = RECEIVED.with(|v| std::mem::take(&mut *v.borrow_mut()));
+        let outer_h = HANDLE_OPS.with(|v| std::mem::take(&mut *v.borrow_mut()));
         // the op line of this emission comes BEFORE the lines of its callback script; its answer is filled in below
         let at = self.log.len();
         self.log.push((self.seg, String::new(), String::new()));
@@ -655,13 +765,17 @@ impl Ctx {
         // `self` is not touched until the call is over (the callback script works through the raw pointer)
         let res = catch_unwind(call);
         let unused = CALLBACK.with(|c| c.borrow_mut().take()).is_some();
+        let mut cb_panicked = false;
         if let Err(p) = res {
             if !p.is::<VerifPanic>() || script.is_none() {
                 resume_unwind(p);
             }
             // the recorder method panicked (script ended in `Panic`); caught here, directly around the macro call
             self.counts.push("callback.panicked".into());
+            cb_panicked = true;
         }
+        // the updates made through the handle the macro returned (the call site makes exactly one)
+        let hops = HANDLE_OPS.with(|v| std::mem::replace(&mut *v.borrow_mut(), outer_h));
         if let (true, Some(s)) = (unused, script) {
             // the emission reached no double (no-op recorder): there was no callback to run the script in.  Its
             // statements are run here instead, right after the call — for the model this is the same op sequence
@@ -675,18 +789,49 @@ impl Ctx {
             }
         }
         let got = RECEIVED.with(|v| std::mem::replace(&mut *v.borrow_mut(), outer));
+        self.seen += got.len() as u64;
         let want_row = forms()[f].1.clone();
         if got.len() > 1 {
             self.fails.push(("emission delivered more than once".into(), format!("{} deliveries; {}", got.len(), here)));
         }
+        let tgt_of = |r: &Received| match r.owner {
+            None => format!("glob:{}", r.id),
+            Some(_) => format!("loc:{}", r.id),
+        };
+        // whose handle did the call site get?  (`~`: a describe form, there is none)
+        let handle_tok = if want_row.describe {
+            if !hops.is_empty() {
+                self.fails.push(("a describe_* macro call updated a metric handle".into(), format!("{:?}; {}", hops, here)));
+            }
+            "~".to_string()
+        } else if cb_panicked {
+            // the recorder method never returned: there is no handle, and nothing may have been updated
+            if !hops.is_empty() {
+                self.fails.push(("metric handle updated although the recorder method panicked".into(), format!("{:?}; {}", hops, here)));
+            }
+            got.first().map_or("noop".to_string(), tgt_of)
+        } else {
+            match (got.first(), hops.as_slice()) {
+                (None, []) => "noop".to_string(),
+                (Some(r), [h]) if r.handle == Some(*h) => tgt_of(r),
+                _ => {
+                    self.fails.push((
+                        "the handle returned by the macro is not the one the receiving recorder returned".into(),
+                        format!(
+                            "updates went through handle(s) {:?}, the receiving recorder call(s) returned {:?}; {}",
+                            hops,
+                            got.iter().map(|r| r.handle).collect::<Vec<_>>(),
+                            here
+                        ),
+                    ));
+                    "other".to_string()
+                }
+            }
+        };
         let ans = match got.first() {
-            None => format!("noop stale=0 lifo={} {}", lifo as u8, want_row.tok()),
+            None => format!("noop stale=0 lifo={} handle={} {}", lifo as u8, handle_tok, want_row.tok()),
             Some(r) => {
-                let tgt = match r.owner {
-                    None => format!("glob:{}", r.id),
-                    Some(_) => format!("loc:{}", r.id),
-                };
-                format!("{} stale={} lifo={} {}", tgt, (!r.in_scope) as u8, lifo as u8, r.row.tok())
+                format!("{} stale={} lifo={} handle={} {}", tgt_of(r), (!r.in_scope) as u8, lifo as u8, handle_tok, r.row.tok())
             }
         };
         // implementation-side oracles
@@ -744,11 +889,35 @@ impl Ctx {
     }
 }
 
+/// the `EmitOnDrop` locals of one body, dropped like locals are: newest first, when the body's frame is left — by
+/// return or by unwinding
+struct Defers {
+    cx: *mut Ctx,
+    fs: Vec<usize>,
+}
+
+impl Drop for Defers {
+    fn drop(&mut self) {
+        while let Some(f) = self.fs.pop() {
+            // SAFETY: the `Ctx` outlives every `exec` frame; nothing else touches it while a destructor runs
+            unsafe { (*self.cx).emit_deferred(f) }
+        }
+    }
+}
+
 fn exec(cx: &mut Ctx, stmts: &[Stmt]) {
+    let cxp: *mut Ctx = cx;
+    // deliveries of an enclosing emission (this body may be a callback script) stay where they are
+    let base = RECEIVED.with(|v| v.borrow().len());
+    let mut defers = Defers { cx: cxp, fs: vec![] };
     for s in stmts {
         match s {
             Stmt::Emit(f) => cx.emit(*f, None),
             Stmt::EmitCb(f, script) => cx.emit(*f, Some(script)),
+            Stmt::Defer(f) => {
+                defers.fs.push(*f);
+                cx.counts.push("stmt.defer".into());
+            }
             Stmt::Install(r) => {
                 let d = cx.double(*r);
                 let g = metrics::set_default_local_recorder(d.view);
@@ -756,12 +925,14 @@ fn exec(cx: &mut Ctx, stmts: &[Stmt]) {
                 cx.slots.push(Some(g));
                 cx.spec_stack.push((gid, *r));
                 cx.op(format!("install {}", r), format!("g{}", gid));
+                cx.quiet(base, "set_default_local_recorder");
             }
             Stmt::Drop(g) => {
                 let guard = cx.slots[*g].take().expect("generator: guard is live");
                 drop(guard);
                 cx.ended_guard(*g);
                 cx.op(format!("drop {}", g), "ok".into());
+                cx.quiet(base, "drop(guard)");
             }
             Stmt::Forget(g) => {
                 let guard = cx.slots[*g].take().expect("generator: guard is live");
@@ -769,6 +940,7 @@ fn exec(cx: &mut Ctx, stmts: &[Stmt]) {
                 cx.had_forget = true;
                 cx.spec_stack.retain(|x| x.0 != *g);
                 cx.op(format!("forget {}", g), "ok".into());
+                cx.quiet(base, "mem::forget(guard)");
             }
             Stmt::End(r) => {
                 // the borrow `&r` handed to the guards ends here
@@ -795,6 +967,7 @@ fn exec(cx: &mut Ctx, stmts: &[Stmt]) {
                 };
                 cx.depth -= 1;
                 cx.ended_guard(gid);
+                cx.quiet(base, "entering/leaving a local scope");
                 match res {
                     Ok(()) => cx.op("exit".into(), "ok".into()),
                     Err(p) => {
@@ -832,6 +1005,7 @@ fn exec(cx: &mut Ctx, stmts: &[Stmt]) {
                     cx.counts.push(format!("global.via.{:?}", cx.global_wrap));
                 }
                 cx.op(format!("setglobal {}", r), if ok { "ok".into() } else { "err".into() });
+                cx.quiet(base, "set_global_recorder");
             }
         }
     }
@@ -869,8 +1043,9 @@ struct Gen<'a> {
     ended: Vec<u32>,
     budget: usize,
     max_level: usize,
-    /// generating the script of a recorder callback (scripts do not nest)
-    in_script: bool,
+    /// nesting depth of recorder-callback scripts being generated (a script may contain a macro call that carries a
+    /// script of its own: re-entrancy depth up to 3)
+    in_script: usize,
 }
 
 impl<'a> Gen<'a> {
@@ -889,19 +1064,30 @@ impl<'a> Gen<'a> {
     /// `Recorder` method, closures opened (and left, also by panics) inside it, possibly a panic out of the method
     fn emit_stmt(&mut self, level: usize) -> Stmt {
         let f = pick_form(self.r);
-        if self.in_script || self.budget < 3 || !self.r.chance(1, 6) {
+        let den = if self.in_script == 0 { 6 } else { 3 };
+        if self.in_script >= 3 || self.budget < 3 || !self.r.chance(1, den) {
             return Stmt::Emit(f);
         }
-        self.in_script = true;
+        self.in_script += 1;
         let saved = self.mode;
-        self.mode = Mode::Closures;
+        // half of the scripts keep the mode of the program: the recorder method itself creates guards
+        // (`set_default_local_recorder` inside `register_*`), dropped inside the method or — in the non-LIFO modes —
+        // after it returned; the other half only opens closures
+        if self.r.chance(1, 2) {
+            self.mode = Mode::Closures;
+        }
+        let strict = matches!(self.mode, Mode::Closures | Mode::Lifo | Mode::Forget);
         let n = self.r.range(1, 3);
         let (mut b, panicked) = self.body(level + 1, n);
-        self.mode = saved;
-        self.in_script = false;
         if !panicked {
+            if strict {
+                // a disciplined recorder method closes, newest first, every guard it created before it returns
+                self.close_level_lifo(level + 1, &mut b);
+            }
             b.push(Stmt::Emit(pick_form(self.r)));
         }
+        self.mode = saved;
+        self.in_script -= 1;
         Stmt::EmitCb(f, b)
     }
     fn maybe_end(&mut self, out: &mut Vec<Stmt>) {
@@ -939,7 +1125,7 @@ impl<'a> Gen<'a> {
             let w_close = if self.live.is_empty() { 0 } else { 4 };
             let w_with = if level < self.max_level { 4 } else { 0 };
             let w_panic = if level > 0 { 1 } else { 0 };
-            match self.r.weighted(&[6, w_install, w_close, w_with, w_panic]) {
+            match self.r.weighted(&[6, w_install, w_close, w_with, w_panic, 1]) {
                 0 => {
                     let e = self.emit_stmt(level);
                     out.push(e)
@@ -1008,13 +1194,14 @@ impl<'a> Gen<'a> {
                         out.push(Stmt::Emit(pick_form(self.r)));
                     }
                 }
-                _ => {
+                4 => {
                     if strict {
                         self.close_level_lifo(level, &mut out);
                     }
                     out.push(Stmt::Panic);
                     return (out, true);
                 }
+                _ => out.push(Stmt::Defer(pick_form(self.r))),
             }
         }
         (out, false)
@@ -1066,7 +1253,7 @@ fn gen_thread(r: &mut Rng, mode: Mode, tid: usize, syncs: usize) -> Vec<Stmt> {
         ended: vec![],
         budget: 40,
         max_level: 0,
-        in_script: false,
+        in_script: 0,
     };
     g.max_level = g.r.range(1, 5);
     let _ = g.tid;
@@ -1094,6 +1281,7 @@ struct ThreadResult {
     max_depth: usize,
     had_forget: bool,
     had_nonlifo: bool,
+    seen: u64,
 }
 
 static HOOK: Once = Once::new();
@@ -1115,6 +1303,8 @@ fn run_case(out: &mut Out, tag: &str, global: &mut Option<u32>, progs: Vec<Vec<S
     let n = progs.len();
     let barrier = if n > 1 { Some(Arc::new(Barrier::new(n))) } else { None };
     let g0 = *global;
+    let deliveries_before = DELIVERIES.load(Ordering::SeqCst);
+    let mut seen = 0u64;
     let shared = Arc::new(AtomicU32::new(g0.unwrap_or(0)));
     let global_wrap = *GLOBAL_WRAP.get().unwrap_or(&Wrap::Ref);
     // every case runs on fresh OS threads: their LOCAL_RECORDER starts empty and dies with them
@@ -1141,10 +1331,12 @@ fn run_case(out: &mut Out, tag: &str, global: &mut Option<u32>, progs: Vec<Vec<S
                     barrier,
                     max_depth: 0,
                     depth: 0,
+                    seen: 0,
                 };
                 let syncs = prog.iter().filter(|s| matches!(s, Stmt::Sync)).count();
                 let me: *mut Ctx = &mut cx;
                 let died = catch_unwind(AssertUnwindSafe(|| unsafe { exec(&mut *me, &prog) })).is_err();
+                cx.quiet(0, "the end of the thread's program");
                 if died {
                     // never leave the other threads of the case waiting at a barrier
                     for _ in cx.seg..syncs {
@@ -1166,6 +1358,7 @@ fn run_case(out: &mut Out, tag: &str, global: &mut Option<u32>, progs: Vec<Vec<S
                     max_depth: cx.max_depth,
                     had_forget: cx.had_forget,
                     had_nonlifo: cx.had_nonlifo,
+                    seen: cx.seen,
                 }
             })
         })
@@ -1182,12 +1375,22 @@ fn run_case(out: &mut Out, tag: &str, global: &mut Option<u32>, progs: Vec<Vec<S
                     out.count(c);
                 }
                 fails.extend(tr.fails);
+                seen += tr.seen;
                 depth = depth.max(tr.max_depth);
                 forget |= tr.had_forget;
                 nonlifo |= tr.had_nonlifo;
             }
             Err(_) => fails.push(("harness thread died".to_string(), format!("thread {}", tid))),
         }
+    }
+    // every thread of the case has ended (its thread-locals are gone): each recorder call made meanwhile must be one
+    // a thread's oracles looked at — a call made at thread exit / TLS teardown, or between two macro calls, is not
+    let delivered = DELIVERIES.load(Ordering::SeqCst) - deliveries_before;
+    if delivered != seen {
+        fails.push((
+            "a recorder method was called outside any macro call".to_string(),
+            format!("{} recorder calls were made during the case, {} of them by the macro calls of its threads", delivered, seen),
+        ));
     }
     // the op stream follows the barriers: segment by segment (everything a thread did before its k-th `Sync`
     // happened before everything any thread did after it), threads in index order within a segment.  Within a
@@ -1386,6 +1589,93 @@ fn corpus() -> Vec<(&'static str, Vec<Vec<Stmt>>)> {
                 Emit(22),
             ]],
         ),
+        // "record on drop" locals: the macro call is made by a destructor WHILE THE PANIC UNWINDS the frame
+        // (thread::panicking() is true); it must still reach the recorder of the scope the local lives in — scope 2 for
+        // the inner one, then (the panic is not caught at the inner scope) scope 1 for the outer one; register and
+        // describe forms, closure frames and frame-owned guards
+        (
+            "corpus emit-while-unwinding",
+            vec![vec![
+                Defer(0),
+                With {
+                    rec: 1,
+                    body: vec![
+                        Defer(3),
+                        Defer(21),
+                        Emit(1),
+                        With { rec: 2, body: vec![Defer(2), Defer(26), Emit(3), Panic], catch: false, via_guard: false },
+                        Emit(4),
+                    ],
+                    catch: true,
+                    via_guard: false,
+                },
+                Emit(5),
+                With {
+                    rec: 3,
+                    body: vec![
+                        Defer(40),
+                        With { rec: 4, body: vec![Defer(130), Emit(60), Panic], catch: false, via_guard: true },
+                    ],
+                    catch: true,
+                    via_guard: true,
+                },
+                // the same on return
+                With { rec: 5, body: vec![Defer(7), Defer(8), Emit(9)], catch: true, via_guard: false },
+                // a destructor of a recorder method's frame, the method panics
+                With { rec: 6, body: vec![EmitCb(0, vec![Defer(1), Emit(2), Panic]), Emit(3)], catch: true, via_guard: false },
+                End(1),
+                End(2),
+                End(3),
+                End(4),
+                End(5),
+                End(6),
+                Emit(22),
+            ]],
+        ),
+        // re-entrancy depth 3; each recorder method creates a guard of its own (set_default_local_recorder inside
+        // register_*) and drops it before it returns
+        (
+            "corpus callback-depth3",
+            vec![vec![
+                With {
+                    rec: 1,
+                    body: vec![
+                        EmitCb(
+                            2,
+                            vec![
+                                Install(2),
+                                EmitCb(3, vec![Install(3), EmitCb(4, vec![Emit(5), Defer(6)]), Emit(30), Drop(2)]),
+                                Emit(6),
+                                Drop(1),
+                                Emit(31),
+                            ],
+                        ),
+                        Emit(7),
+                    ],
+                    catch: true,
+                    via_guard: false,
+                },
+                End(1),
+                End(2),
+                End(3),
+                Emit(8),
+            ]],
+        ),
+        // a guard created INSIDE a recorder method and dropped after the macro call returned (still newest-first)
+        (
+            "corpus guard-outlives-callback",
+            vec![vec![
+                Install(1),
+                EmitCb(0, vec![Install(2), Emit(1)]),
+                Emit(2),
+                Drop(1),
+                Emit(3),
+                Drop(0),
+                End(1),
+                End(2),
+                Emit(4),
+            ]],
+        ),
     ]
 }
 
@@ -1529,6 +1819,42 @@ const PROBES: &[Probe] = &[
         codes: &["E0277"],
         what: "safe Rust accepts sharing a LocalRecorderGuard with another thread (the guard is Sync)",
     },
+    Probe {
+        name: "recorder reference kept beyond with_recorder",
+        ops: &[(0, "enter 1"), (0, "keepref")],
+        prefix_answers: &["g0"],
+        body: "pub fn f() { let local = R(String::new()); let kept: &dyn Recorder = metrics::with_local_recorder(&local, || metrics::with_recorder(|r| r)); drop(local); kept.describe_counter(\"x\".into(), None, \"d\".into()); }",
+        control: "pub fn f() { let local = R(String::new()); metrics::with_local_recorder(&local, || metrics::with_recorder(|r| r.describe_counter(\"x\".into(), None, \"d\".into()))); drop(local); }",
+        codes: &["msg:lifetime may not live long enough", "E0521", "E0597", "E0505", "E0310"],
+        what: "safe Rust accepts a program that keeps the `&dyn Recorder` handed to the closure of with_recorder after the call (its lifetime is not confined to the call): the local recorder is dispatched to after its scope and its borrow ended, in a LIFO program",
+    },
+    Probe {
+        name: "recorder reference stored in a static from inside with_recorder",
+        ops: &[(0, "enter 1"), (0, "keepref")],
+        prefix_answers: &["g0"],
+        body: "pub fn f() { static KEPT: std::sync::Mutex<Option<&'static (dyn Recorder + Sync)>> = std::sync::Mutex::new(None); let local = R(String::new()); metrics::with_local_recorder(&local, || metrics::with_recorder(|r| { let s: &'static dyn Recorder = r; let _ = s; })); let _ = &KEPT; }",
+        control: "pub fn f() { static KEPT: std::sync::Mutex<Option<&'static (dyn Recorder + Sync)>> = std::sync::Mutex::new(None); let local = R(String::new()); metrics::with_local_recorder(&local, || metrics::with_recorder(|r| { let s: &dyn Recorder = r; let _ = s; })); let _ = &KEPT; }",
+        codes: &["msg:lifetime may not live long enough", "msg:borrowed data escapes", "E0521", "E0597"],
+        what: "safe Rust accepts treating the `&dyn Recorder` handed to the closure of with_recorder as `&'static dyn Recorder`",
+    },
+    Probe {
+        name: "guard cloned",
+        ops: &[(0, "install 1"), (0, "dupguard 0")],
+        prefix_answers: &["g0"],
+        body: "pub fn f() { let r = R(String::new()); let g = metrics::set_default_local_recorder(&r); let g2 = Clone::clone(&g); drop(g); drop(g2); }",
+        control: "pub fn f() { let r = R(String::new()); let g = metrics::set_default_local_recorder(&r); let g2 = &g; let _ = g2; drop(g); }",
+        codes: &["E0277", "E0599"],
+        what: "safe Rust accepts cloning a LocalRecorderGuard (the guard is Clone): the copy writes the saved previous recorder back a second time, after the outer guard and the outer recorder's borrow are gone",
+    },
+    Probe {
+        name: "guard used after it was moved (Copy)",
+        ops: &[(0, "install 1"), (0, "dupguard 0")],
+        prefix_answers: &["g0"],
+        body: "pub fn f() { let r = R(String::new()); let g = metrics::set_default_local_recorder(&r); let g2 = g; drop(g); drop(g2); }",
+        control: "pub fn f() { let r = R(String::new()); let g = metrics::set_default_local_recorder(&r); let g2 = g; drop(g2); }",
+        codes: &["E0382"],
+        what: "safe Rust accepts using a LocalRecorderGuard after it was moved (the guard is Copy): two values restore the same saved recorder",
+    },
 ];
 
 /// the `metrics` rlib this executable was linked with (newest `libmetrics-*.rlib` beside it) and the deps dir
@@ -1612,7 +1938,15 @@ fn type_probes(out: &mut Out) {
             } else {
                 let ans = match &body {
                     Ok(()) => "ok".to_string(),
-                    Err(e) if p.codes.iter().any(|c| e.contains(&format!("[{}]", c))) => "rejected".to_string(),
+                    Err(e)
+                        if p.codes.iter().any(|c| match c.strip_prefix("msg:") {
+                            // borrow-check diagnostics without an error code are matched by their message
+                            Some(m) => e.contains(m),
+                            None => e.contains(&format!("[{}]", c)),
+                        }) =>
+                    {
+                        "rejected".to_string()
+                    }
                     Err(e) => panic!(
                         "type probe `{}`: rustc refused the program for an unexpected reason (expected one of {:?}):\n{}",
                         p.name, p.codes, e
@@ -1670,7 +2004,8 @@ pub fn run(cfg: &Cfg, out: &mut Out) {
                     Install(1),
                     Emit(1),
                     Sync,
-                    SetGlobal(GLOBAL_ID),
+                    // the installation is made from INSIDE a dispatched call: by recorder 1's `register_counter`
+                    EmitCb(1, vec![SetGlobal(GLOBAL_ID), Emit(2)]),
                     Sync,
                     Emit(2),
                     With { rec: 2, body: vec![Emit(3)], catch: true, via_guard: false },
